@@ -854,8 +854,13 @@ def _judge_parse(ctx, case, raw, plan, image):
     if _parse_skipped(ctx, raw, plan):
         return None
     ctx.count("parse_judged")
+    given = image
+    if ctx.rng.random() < 0.25:
+        # the same bytes in a mutable buffer (what a read from a device or an mmap hands over)
+        given = bytearray(image)
+        ctx.count("parsed_from_bytearray")
     try:
-        parsed = BootableImage.parse(image, family=fam, mem_type=MemoryType.from_label(mem), revision=rev)
+        parsed = BootableImage.parse(given, family=fam, mem_type=MemoryType.from_label(mem), revision=rev)
     except SPSDKError as e:
         ctx.violation(_parse_key(raw, plan, None, str(e)),
                       _witness(case, plan, {"where": "api parse", "error": core.exc_brief(e), "image_length": len(image),
